@@ -882,6 +882,10 @@ def _sin(x):
     a = fn_atom_of(x)
     if a is not None and a.fn == 'asin':
         return a.arg[0]
+    if a is not None and a.fn == 'atan2':
+        # sin(atan2(y, x)) = y / sqrt(x^2 + y^2)   ((y, x) != (0, 0))
+        y_, x_ = a.arg
+        return y_ / sqrt(x_ * x_ + y_ * y_)
     # odd symmetry: canonical sign of leading coefficient
     if x.num.t:
         m, lc = x.num.lead()
@@ -898,6 +902,9 @@ def _cos(x):
     if a is not None and a.fn == 'asin':
         u = a.arg[0]
         return sqrt(ONE - u * u)
+    if a is not None and a.fn == 'atan2':
+        y_, x_ = a.arg
+        return x_ / sqrt(x_ * x_ + y_ * y_)
     if x.num.t:
         m, lc = x.num.lead()
         if lc < 0:
